@@ -87,6 +87,8 @@ def pubLoop (fixed : Bool) (self : Bytes) (seen : List Bytes) : List PubTree →
   | e :: rest =>
     -- the record is decoded first: null points panic inside the decoder
     if e.ecdsa == .null || e.elgamal == .null then (if fixed then .err else .crash) else
+    -- a point has no degenerate encoding (the identity cannot be marshalled): `bad` bytes fail to decode, also in the own record
+    if e.ecdsa == .bad || e.elgamal == .bad then .err else
     if fixed && e.id == [] then .err else
     if seen.contains e.id then .err else
     if e.id == self then
@@ -101,7 +103,8 @@ def cmpRestore (fixed : Bool) (t : CmpTree) : Out :=
   ifaceField fixed t.ecdsa <| ifaceField fixed t.elgamal <|
   (if fixed && t.id == [] then .err else
    if fixed && t.rid != .good then .err else
-   if fixed && !(t.chainKey == .good || t.chainKey == .absent) then .err else
+   -- a chain key is a byte string decoded into a slice: CBOR null gives the empty slice, i.e. no chain key
+   if fixed && !(t.chainKey == .good || t.chainKey == .absent || t.chainKey == .null) then .err else
    ptrField t.p <| ptrField t.q <|
    andThen (pubLoop fixed t.id [] t.pub) <|
      if !validThreshold t.thr t.pub.length then .err else
@@ -110,7 +113,7 @@ def cmpRestore (fixed : Bool) (t : CmpTree) : Out :=
 /-- the validity rules of a restored CMP config, on the tree -/
 def CmpWellFormed (t : CmpTree) : Prop :=
   t.topNull = false ∧ t.id ≠ [] ∧ t.ecdsa = .good ∧ t.elgamal = .good ∧ t.p = .good ∧ t.q = .good ∧ t.rid = .good ∧
-    (t.chainKey = .good ∨ t.chainKey = .absent) ∧
+    (t.chainKey = .good ∨ t.chainKey = .absent ∨ t.chainKey = .null) ∧
     (∀ e ∈ t.pub, e.id ≠ [] ∧ e.s = .good ∧ e.t = .good ∧ (e.id ≠ t.id → e.n = .good ∧ e.ecdsa = .good ∧ e.elgamal = .good)) ∧
     (t.pub.map (·.id)).Nodup ∧ t.id ∈ t.pub.map (·.id) ∧ 0 ≤ t.thr ∧ t.thr < t.pub.length
 
